@@ -90,6 +90,7 @@ class Index:
         self.classes = {}  # name -> [ClassInfo]
         self.module_funcs = {}  # (relpath, name) -> FuncInfo
         self.module_consts = {}  # (relpath, name) -> value node of a module-level `NAME = <expr>` assigned exactly once
+        self.std_imports = {}  # (relpath, local name) -> 'module.name' for `from <stdlib module> import name`
         self.module_aliases = {}  # (relpath, local name) -> relpath of the package module that name is bound to by an import
         self.parse_errors = []
         base = os.path.join(self.root, pkg)
@@ -209,7 +210,12 @@ class Index:
                 return cand
         return None
 
+    _STD = ("itertools", "functools", "collections", "operator", "math", "os.path", "copy", "hashlib")
+
     def _index_import(self, rel, node):
+        if isinstance(node, ast.ImportFrom) and node.level == 0 and node.module in self._STD:
+            for a in node.names:
+                self.std_imports[(rel, a.asname or a.name)] = f"{node.module}.{a.name}"
         if isinstance(node, ast.ImportFrom):
             for a in node.names:
                 m = self._module_rel(rel, ((node.module + ".") if node.module else "") + a.name, node.level)
